@@ -60,6 +60,8 @@ class LockInfo:
         self.entry_unlocks = set()  # unlock of a lock not acquired here (callee releases caller's lock)
         self.truncated = False
         self.handles = []
+        self.held_pos = {}   # position -> locks possibly held there
+        self.visits = {}     # position -> list of held sets (one per path state)
         self.writes = []     # (pos, lhs node, held)  -- field stores
         self.reads = []
 
@@ -83,6 +85,12 @@ class _LockClient(Client):
     def node(self, st, n, sim):
         info = self.info
         k = n.get("k")
+        hp = info.held_pos.get(sim.cur)
+        if hp is None:
+            info.held_pos[sim.cur] = set(st)
+        else:
+            hp.update(st)
+        info.visits.setdefault(sim.cur, []).append(st)
         if k == "call":
             f = n.get("fn")
             if f in (LOCK, UNLOCK) and n["args"]:
